@@ -39,6 +39,8 @@ func checkC07(c *Ctx, r *Report) {
 	checkQRMaskHint(c, r)
 	// Reed-Solomon parity of the QR field: Encode folded on complete small domains (same obligations as under C04)
 	checkRSEncodeQR(c, r)
+	checkRSInstances(c, r)                                          // the encoder generateECBytes asks for is one of the QR field, whatever was built before (also C04)
+	checkSharedStores(c, r, "common/reedsolomon,qrcode/encoder", 5) // no symbol is built from state left by another (also C18)
 	checkQRVersionPlacement(c, r)
 	checkQRBasicPlacement(c, r)
 	r.Assume("ISO/IEC 18004 Table 9 as transcribed in checker/ref_qr.go (cross-validated by the geometry-derived totals: a wrong transcription would make data/blocks non-integral or disagree with the published capacities)")
